@@ -129,11 +129,34 @@ func (q *Queue[T]) Values() []any {
 	return values
 }
 
+// PurgeValues removes all elements and returns them, atomically with respect to
+// Enqueue and Dequeue: an element is either returned or still in the queue.
+func (q *Queue[T]) PurgeValues() []any {
+	q.mx.Lock()
+	defer q.mx.Unlock()
+
+	values := make([]any, 0)
+	for chunk := q.readChunk; chunk != nil; chunk = chunk.Next {
+		for i := chunk.NextReadIndex; i < chunk.NextWriteIndex; i++ {
+			values = append(values, chunk.Data[i])
+		}
+	}
+
+	q.reset()
+
+	return values
+}
+
 // Purge clears all elements from the queue
 func (q *Queue[T]) Purge() {
 	q.mx.Lock()
 	defer q.mx.Unlock()
 
+	q.reset()
+}
+
+// reset drops all chunks; the caller holds the lock
+func (q *Queue[T]) reset() {
 	// Reset to single chunk with initial capacity
 	chunk := linkedbuffer.NewChunk[T](initialBufferCapacity)
 	q.readChunk = chunk
